@@ -13,7 +13,8 @@
 //! delete <expr> => <expr|?>         Dataset::delete(sql(expr)); the second expression as for `scan` (the filter scan of a
 //! update c<i> <cell> <expr> => <expr|?>   delete / update uses the scalar indices); UpdateBuilder.update_where(..).set(c<i>, cell)
 //! compact                           compact_files(target_rows_per_fragment = 2^20, materialize_deletions, threshold 0)
-//! index c<i> <btree|bitmap>         create_index([c<i>], kind, name i<i>, replace = true)
+//! index c<i> <btree|bitmap> [z<n>]  create_index([c<i>], kind, name i<i>, replace = true); z<n> (btree only) = zone_size n:
+//!                                   the BTree gets one page per n rows, so that the page lookup is exercised
 //! optimize                          optimize_indices(default)
 //! plan <natlist> <expr>             apply_scalar_indices(expr AS GIVEN, columns of natlist indexed)   (no dataset needed)
 //! scan <expr> => <expr|?>           Scanner.filter(sql(expr)) with and without scalar indices; the second expression is the
@@ -52,7 +53,7 @@ use lance_index::scalar::expression::{
     apply_scalar_indices, IndexExprResult, IndexInformationProvider, PlannerIndexExt, SargableQueryParser, ScalarIndexExpr,
     ScalarIndexSearch, ScalarQueryParser,
 };
-use lance_index::scalar::{SargableQuery, ScalarIndexParams};
+use lance_index::scalar::{BuiltinIndexType, SargableQuery, ScalarIndexParams};
 use lance_index::{DatasetIndexExt, IndexType};
 
 #[path = "../tablekit.rs"]
@@ -412,7 +413,7 @@ enum Op {
     Delete(Expr, Option<Expr>),
     Update(usize, Cell, Expr, Option<Expr>),
     Compact,
-    Index(usize, bool), // true = btree
+    Index(usize, bool, Option<u64>), // true = btree; zone size
     Optimize,
     Plan(Vec<u64>, Expr),
     Scan(Expr, Option<Expr>),
@@ -454,11 +455,20 @@ fn parse_op(line: &str) -> Option<Op> {
         }
         "compact" if t.len() == 1 => Some(Op::Compact),
         "optimize" if t.len() == 1 => Some(Op::Optimize),
-        "index" if t.len() == 3 => {
+        "index" if t.len() == 3 || t.len() == 4 => {
             let c = querykit::parse_col(t[1]).filter(|c| *c < K)?;
+            let z = if t.len() == 4 {
+                let z = t[3].strip_prefix('z')?;
+                if t[2] != "btree" || z.is_empty() || z.len() > 4 || !z.bytes().all(|b| b.is_ascii_digit()) {
+                    return None;
+                }
+                Some(z.parse::<u64>().ok().filter(|z| *z >= 1)?)
+            } else {
+                None
+            };
             match t[2] {
-                "btree" => Some(Op::Index(c, true)),
-                "bitmap" => Some(Op::Index(c, false)),
+                "btree" => Some(Op::Index(c, true, z)),
+                "bitmap" => Some(Op::Index(c, false, z)),
                 _ => None,
             }
         }
@@ -591,12 +601,16 @@ impl C19 {
                 kit.lance_call("compact", compact_files(&mut d, opts, None))?;
                 st.ds = d;
             }
-            Op::Index(c, bt) => {
+            Op::Index(c, bt, z) => {
                 let mut d = st.ds.clone();
                 let name = format!("c{c}");
                 let ty = if *bt { IndexType::BTree } else { IndexType::Bitmap };
+                let params = match z {
+                    Some(z) => ScalarIndexParams::for_builtin(BuiltinIndexType::BTree).with_params(&serde_json::json!({"zone_size": z})),
+                    None => ScalarIndexParams::default(),
+                };
                 kit.lance_call("create_index", async {
-                    d.create_index(&[name.as_str()], ty, Some(format!("i{c}")), &ScalarIndexParams::default(), true).await
+                    d.create_index(&[name.as_str()], ty, Some(format!("i{c}")), &params, true).await
                 })?;
                 st.kinds.insert(*c, *bt);
                 st.ds = d;
@@ -632,15 +646,15 @@ impl Prop for C19 {
 
     fn budget(&self, tier: Tier) -> usize {
         match tier {
-            Tier::Quick => 200,
+            Tier::Quick => 450,
             Tier::Thorough => 6000,
             Tier::Search => 1500,
         }
     }
 
     fn rule(&self) -> String {
-        "seeded histories on real datasets (3 nullable Int64 columns, values 0..6, ~25% NULL): create, then 5-11 steps drawn from \
-         index btree/bitmap 22%, append 12%, delete 9%, update 8%, compact 8%, optimize 6%, and queries (scan 60% / ieval 25% / plan 15% of \
+        "seeded histories on real datasets (3 nullable Int64 columns, values 0..6, ~25% NULL): create (4-12 rows, 1 in 4 cases 12-30 rows), then 5-11 steps drawn from \
+         index btree (2 in 5 with zone_size 1-4, i.e. many pages) / bitmap 22%, append 12%, delete 9%, update 8%, compact 8%, optimize 6%, and queries (scan 60% / ieval 25% / plan 15% of \
          the query lines, 1-3 after every step). Predicates: querykit trees of depth <= 3 over = != < <= > >= BETWEEN IN IS [NOT] NULL NOT AND OR \
          (literals from the data +-1, NULL inside IN lists, column-column comparisons), plus same-column comparison pairs in all 36 operator \
          combinations (maybe_range) and inverted / empty ranges; ieval trees are hand-built ScalarIndexExpr shapes (NOT NOT, NOT of AND/OR). \
@@ -698,8 +712,9 @@ impl Prop for C19 {
                             Op::Delete(..) => "op:delete",
                             Op::Update(..) => "op:update",
                             Op::Compact => "op:compact",
-                            Op::Index(_, true) => "op:index_btree",
-                            Op::Index(_, false) => "op:index_bitmap",
+                            Op::Index(_, true, None) => "op:index_btree",
+                            Op::Index(_, true, Some(_)) => "op:index_btree_paged",
+                            Op::Index(_, false, _) => "op:index_bitmap",
                             _ => "op:optimize",
                         }
                         .into(),
@@ -996,7 +1011,7 @@ mod gen {
 
     pub fn case(p: &C19, rng: &mut Rng) -> Vec<String> {
         let mut lines = vec![];
-        let mut shadow = rows(rng, 4, 12);
+        let mut shadow = if rng.chance(1, 4) { rows(rng, 12, 30) } else { rows(rng, 4, 12) };
         lines.push(format!("create {}", show_rows(&shadow)));
         let mut indexed: Vec<usize> = vec![];
         let steps = rng.range(5, 11);
@@ -1005,7 +1020,11 @@ mod gen {
             let m = rng.below(100);
             if step == 0 || m < 22 {
                 let c = rng.usize(K);
-                lines.push(format!("index c{c} {}", if rng.chance(3, 5) { "btree" } else { "bitmap" }));
+                lines.push(match rng.below(5) {
+                    0 | 1 => format!("index c{c} btree z{}", rng.range(1, 4)),
+                    2 => format!("index c{c} btree"),
+                    _ => format!("index c{c} bitmap"),
+                });
                 if !indexed.contains(&c) {
                     indexed.push(c);
                 }
